@@ -178,6 +178,7 @@ func replayOne(beh []m.Step, rec func(*m.Step)) (o outcome) {
 	for i := range beh {
 		want := &beh[i]
 		if want.A == "Routes" {
+			// (a group: the same sequence with every route choice TLC made for it)
 			what, enc, herr := compareRoutes(e, want.Off, want.Ts)
 			o.routes++
 			o.enc += enc
@@ -186,9 +187,15 @@ func replayOne(beh []m.Step, rec func(*m.Step)) (o outcome) {
 				return o
 			}
 			if what != "" {
-				o.mm = &mismatch{Mode: "leader", Kind: "routes", Behaviour: beh[:i+1], Step: i, What: what, Cut: want.Off, Lag: want.Ts, Chunk: kv.MaxSnapshotChunkSize}
+				n := i
+				for n > 0 && beh[n-1].A == "Routes" {
+					n--
+				}
+				b := append(append([]m.Step{}, beh[:n]...), *want)
+				o.mm = &mismatch{Mode: "leader", Kind: "routes", Behaviour: b, Step: len(b) - 1, What: what, Cut: want.Off, Lag: want.Ts, Chunk: kv.MaxSnapshotChunkSize}
+				return o
 			}
-			return o
+			continue
 		}
 		got := argsOf(want)
 		problems := m.Exec(e, &got, probeKeys)
@@ -232,6 +239,7 @@ func classOf(w string) string {
 }
 
 type result struct {
+	Sequences  int        `json:"sequences"`
 	Behaviours int        `json:"behaviours"`
 	Steps      int        `json:"steps"`
 	Routes     int        `json:"routes"`
@@ -290,7 +298,7 @@ func cmdReplay(args []string) int {
 					// Pebble flushed: up to three re-executions)
 					again := false
 					for try := 0; try < 3 && !again; try++ {
-						o2 := replayOne(beh, nil)
+						o2 := replayOne(o.mm.Behaviour, nil)
 						again = o2.harness == nil && o2.mm != nil && o2.mm.Step == o.mm.Step
 					}
 					if !again {
@@ -298,7 +306,6 @@ func cmdReplay(args []string) int {
 					}
 				}
 				mu.Lock()
-				res.Behaviours++
 				res.Steps += o.steps
 				res.Routes += o.routes
 				res.EncDiffs += o.enc
@@ -316,10 +323,40 @@ func cmdReplay(args []string) int {
 			}
 		}()
 	}
+	// behaviours that differ in their Routes record only are executed as one: the sequence once, then every route
+	groups := map[string][]m.Step{}
+	var order []string
+	nLines := 0
 	for sc.Scan() {
-		if b := sc.Bytes(); len(b) > 0 {
-			lines <- append([]byte(nil), b...)
+		b := sc.Bytes()
+		if len(b) == 0 {
+			continue
 		}
+		nLines++
+		var beh []m.Step
+		if err := json.Unmarshal(b, &beh); err != nil || len(beh) == 0 {
+			fmt.Fprintln(os.Stderr, "bad behaviour line:", err)
+			return 2
+		}
+		last := beh[len(beh)-1]
+		if last.A != "Routes" {
+			key := fmt.Sprintf("#%d", nLines)
+			groups[key] = beh
+			order = append(order, key)
+			continue
+		}
+		kb, _ := json.Marshal(beh[:len(beh)-1])
+		key := string(kb)
+		if g, ok := groups[key]; ok {
+			groups[key] = append(g, last)
+		} else {
+			groups[key] = beh
+			order = append(order, key)
+		}
+	}
+	for _, k := range order {
+		gb, _ := json.Marshal(groups[k])
+		lines <- gb
 	}
 	close(lines)
 	wg.Wait()
@@ -327,6 +364,8 @@ func cmdReplay(args []string) int {
 		fmt.Fprintln(os.Stderr, "harness failure:", harnessErr)
 		return 2
 	}
+	res.Behaviours = nLines
+	res.Sequences = len(order)
 	b, _ := json.Marshal(res)
 	if err := os.WriteFile(*out, b, 0o644); err != nil {
 		fmt.Fprintln(os.Stderr, err)
